@@ -240,13 +240,13 @@ type Robot { serial: Int }
 union Pet = User | Item
 union Solo = Robot
 enum Color { RED GREEN }
-input Filter { min: Int = 1 tags: [String!] sub: Filter }
+input Filter { min: Int = 1 req: Int! = 2 tags: [String!] = ["a", "b"] sub: Filter }
 input Pick @oneOf { a: Int b: String }
 scalar Odd @specifiedBy(url: "https://example.com/odd")
 scalar Plain
-directive @tag(name: String! = "t", weight: Int) repeatable on FIELD_DEFINITION | OBJECT | ARGUMENT_DEFINITION
+directive @tag(name: String! = "t", weight: Int, names: [String!]! = ["x"], mode: Color! = RED) repeatable on FIELD_DEFINITION | OBJECT | ARGUMENT_DEFINITION
 directive @once on QUERY | FIELD
-type Root { node(id: ID!): Node named: Named lonely: Lonely pet: Pet solo: Solo color(c: Color = RED): Color find(f: Filter, p: Pick): [Node] odd: Odd plain: Plain }
+type Root { node(id: ID!): Node named: Named lonely: Lonely pet: Pet solo: Solo color(c: Color = RED, strict: Boolean! = false): Color find(f: Filter = {min: 3}, p: Pick): [Node] odd: Odd plain: Plain }
 type Change { rename(name: String!): User }
 `
 
@@ -281,6 +281,14 @@ func c16Chain(t *Type) string {
 	}
 	zzsym.Assert(t.OfType() == nil, "a named type has no ofType")
 	return *t.Name()
+}
+
+// c16SameDefault: the reported default value is the definition's, printed as a GraphQL literal.
+func c16SameDefault(got *string, def *ast.Value) bool {
+	if def == nil {
+		return got == nil
+	}
+	return got != nil && *got == def.String()
 }
 
 func c16AstChain(t *ast.Type) string {
@@ -335,6 +343,7 @@ func Harness_C16_relations() {
 			zzsym.Assert(len(d.Args) == len(def.Arguments), "directive arguments")
 			for j, a := range d.Args {
 				zzsym.Assert(a.Name == def.Arguments[j].Name && c16Chain(a.Type) == c16AstChain(def.Arguments[j].Type), "directive argument name and type")
+				zzsym.Assert(c16SameDefault(a.DefaultValue, def.Arguments[j].DefaultValue), "directive argument default value (nullable or not)")
 			}
 		}
 		zzsym.Reach("c16.rel.schema")
@@ -398,6 +407,7 @@ func Harness_C16_relations() {
 			zzsym.Assert(len(fs[k].Args) == len(f.Arguments), "every argument once")
 			for j, a := range f.Arguments {
 				zzsym.Assert(fs[k].Args[j].Name == a.Name && c16Chain(fs[k].Args[j].Type) == c16AstChain(a.Type), "argument name and type")
+				zzsym.Assert(c16SameDefault(fs[k].Args[j].DefaultValue, a.DefaultValue), "argument default value")
 			}
 			k++
 		}
@@ -409,6 +419,7 @@ func Harness_C16_relations() {
 		zzsym.Assert(len(ifs) == len(def.Fields), "every input field once")
 		for j, f := range def.Fields {
 			zzsym.Assert(ifs[j].Name == f.Name && c16Chain(ifs[j].Type) == c16AstChain(f.Type), "input field name and type")
+			zzsym.Assert(c16SameDefault(ifs[j].DefaultValue, f.DefaultValue), "input field default value")
 		}
 	} else {
 		zzsym.Assert(len(ifs) == 0, "only input objects have input fields")
